@@ -220,15 +220,21 @@ def judge(module, records, *, name='judge', env=None, timeout=600, chunk=2500):
     `records` is a list of JSON-able dicts, each with a string field "id".
     Returns (fails, result) where fails = list of (record id, clause name).
     Large record sets are judged in chunks (one TLC run each): JsonDeserialize of one huge file is slow and memory hungry."""
-    fails, last, distinct, generated = [], None, 0, 0
+    fails, last, distinct, generated, tags, out = [], None, 0, 0, {}, []
     for k in range(0, max(1, len(records)), chunk):
         part = records[k:k + chunk]
         f1, r1 = _judge_one(module, part, name=name, env=env, timeout=timeout)
         fails += f1
         distinct += r1.distinct
         generated += r1.generated
+        for t, v in r1.tags.items():
+            tags.setdefault(t, []).extend(v)
+        out.append(r1.stdout)
         last = r1
-    last.distinct, last.generated = distinct, generated
+    # the returned result stands for all chunks: counts, tagged lines and output are merged
+    last.distinct, last.generated, last.tags = distinct, generated, tags
+    if len(out) > 1:
+        last.stdout = '\n'.join(out)
     return fails, last
 
 
